@@ -119,6 +119,17 @@ func detDocs(g *gen.G) []any {
 		}
 		return []any{m}
 	}
+	if g.P(0.08) {
+		// a wide map with escaped dollars in key names and, below them, in values and keys:
+		// the unescaping is one pass, whatever order the map is walked in
+		m := map[string]any{}
+		for i := 0; i < 9+g.N(8); i++ {
+			m[fmt.Sprintf("k%02d", i)] = g.N(5)
+		}
+		m["$$defs"] = map[string]any{"$$$$ref": "#/x", "shell": "echo $$$$ > pidfile", "list": []any{"$$$$", "a$$$$b"}}
+		m["$$zz"] = map[string]any{"$$$$": 1}
+		return []any{m}
+	}
 	switch g.N(9) {
 	case 0: // a wide map through $encode transforms that iterate maps
 		m := map[string]any{}
